@@ -1,5 +1,6 @@
 import WM.Lemmas.HashFileThm
 import WM.Lemmas.IdSetsSorted
+import WM.Props.C20NumLists
 /-! Helper lemmas for the ordered hash file (C20): the binary search over the position index. -/
 set_option linter.unusedSimpArgs false
 namespace WM.C20
@@ -32,9 +33,84 @@ theorem layout_drop {α} (vlen : α → Nat) : ∀ (kvs : List (Key × α)) (p k
     · simp only [layout, List.getElem_cons_succ, List.drop_succ_cons, endPos]
       exact h2
 
+open WM.NumLists in
+theorem append_allowLongs (g : GA) (n : Int) : (g.append n).1.allowLongs = g.allowLongs := by
+  unfold GA.append
+  split
+  · rfl
+  · split
+    · rfl
+    · split
+      · split <;> rfl
+      · rfl
+
+open WM.NumLists in
+/-- Appending naturals below 2^63 one after the other never overflows; the array holds them all. -/
+theorem extend_nat_ok : ∀ (ns : List Int) (g : GA), g.allowLongs = true →
+    (∀ x ∈ g.items, 0 ≤ x ∧ g.tc.fits x = true) → (∀ n ∈ ns, 0 ≤ n ∧ n < 2 ^ 63) →
+    (g.extend ns).2 = false ∧ (g.extend ns).1.items = g.items ++ ns ∧
+      (∀ x ∈ (g.extend ns).1.items, (g.extend ns).1.tc.fits x = true)
+  | [], g, _, hg, _ => ⟨rfl, by simp [GA.extend], fun x hx => (hg x (by simpa [GA.extend] using hx)).2⟩
+  | n :: t, g, hal, hg, hns => by
+    have hn := hns n (by simp)
+    have hnf := growable_nat_never_fails g n hg hn.1 hn.2 (Or.inl hal)
+    have hc := growable_contents g n
+    have hfit := growable_fits g n (fun x hx => (hg x hx).2)
+    rw [hnf] at hc
+    simp only [Bool.false_eq_true, ↓reduceIte] at hc
+    have hg' : ∀ x ∈ (g.append n).1.items, 0 ≤ x ∧ (g.append n).1.tc.fits x = true := by
+      intro x hx
+      refine ⟨?_, hfit x hx⟩
+      rw [hc, List.mem_append, List.mem_singleton] at hx
+      rcases hx with hx | rfl
+      · exact (hg x hx).1
+      · exact hn.1
+    rcases extend_nat_ok t (g.append n).1 (by rw [append_allowLongs]; exact hal) hg'
+      (fun m hm => hns m (List.mem_cons_of_mem _ hm)) with ⟨h1, h2, h3⟩
+    have hext : g.extend (n :: t) = (g.append n).1.extend t := by
+      rw [GA.extend]
+      cases ha : g.append n with
+      | mk g' e =>
+        rw [ha] at hnf
+        simp only at hnf
+        subst hnf
+        rfl
+    rw [hext]
+    refine ⟨h1, ?_, h3⟩
+    rw [h2, hc]; simp
+
+/-- Reading the stored position index back (`_get_pos`): item `k` is the position of record `k`,
+    whatever typecode the array was retyped to, as long as positions are below 2^63. -/
+theorem index_readback {α} {hash : Key → Nat} {vlen : α → Nat} {so : Nat} {kvs : List (Key × α)} {f : File α}
+    (hb : Built hash vlen so kvs f) (hpos : ∀ r ∈ f.recs, r.pos < 2 ^ 63) :
+    (indexArray (f.recs.map (·.pos))).2 = false ∧ f.indexLen = f.recs.length ∧
+      ∀ k (hk : k < f.recs.length), getPos f k = some (f.recs[k]).pos := by
+  have hns : ∀ n ∈ (f.recs.map (·.pos)).map Int.ofNat, (0 : Int) ≤ n ∧ n < 2 ^ 63 := by
+    intro n hn
+    rcases List.mem_map.mp hn with ⟨p, hp, rfl⟩
+    rcases List.mem_map.mp hp with ⟨r, hr, rfl⟩
+    have := hpos r hr
+    simp only [Int.ofNat_eq_natCast]
+    omega
+  rcases extend_nat_ok _ (WM.NumLists.GA.mk .H [] true) rfl (by intro x hx; simp at hx) hns with ⟨h1, h2, h3⟩
+  have hitems : (indexArray (f.recs.map (·.pos))).1.items = (f.recs.map (·.pos)).map Int.ofNat := by
+    unfold indexArray; rw [h2]; rfl
+  refine ⟨h1, ?_, ?_⟩
+  · rw [hb.index.2.1, hitems]; simp
+  · intro k hk
+    unfold getPos
+    rw [hb.index.1, hb.index.2.2]
+    have hk' : k < (indexArray (f.recs.map (·.pos))).1.items.length := by rw [hitems]; simpa using hk
+    have h3' : ∀ x ∈ (indexArray (f.recs.map (·.pos))).1.items,
+        (indexArray (f.recs.map (·.pos))).1.tc.fits x = true := h3
+    rw [growable_readback _ h3' k hk']
+    simp only [hitems, List.getElem_map]
+    have : (0 : Int) ≤ Int.ofNat (f.recs[k]).pos := Int.natCast_nonneg _
+    simp [this]
+
 /-- The binary search of `closest_key_pos` over the position index of an ordered file. -/
 theorem closest_pos_spec {α} (hash : Key → Nat) (vlen : α → Nat) (so : Nat) (kvs : List (Key × α))
-    (f : File α) (hf : build hash vlen so kvs = some f)
+    (f : File α) (hf : build hash vlen so kvs = some f) (hpos : ∀ r ∈ f.recs, r.pos < 2 ^ 63)
     (hord : (kvs.map (·.1)).Pairwise (· < ·)) (key : Key) :
     ∃ lo, lo ≤ kvs.length ∧
       closestKeyPos f key = .ok ((f.recs[lo]?).map (·.pos)) ∧ f.recs.length = kvs.length ∧
@@ -46,14 +122,16 @@ theorem closest_pos_spec {α} (hash : Key → Nat) (vlen : α → Nat) (so : Nat
   have hsorted : f.recs.Pairwise (fun a b => a.pos < b.pos) := by
     rw [hb.recs]; exact layout_pos_sorted vlen kvs _
   have hlen : f.recs.length = kvs.length := by rw [hb.recs, length_layout]
-  have hilen : f.index.length = kvs.length := by rw [hb.index, List.length_map, hlen]
-  have hidx : ∀ k (hk : k < f.index.length), recAt f f.index[k] = some (f.recs[k]'(by omega)) := by
+  rcases index_readback hb hpos with ⟨_, hilen', hget⟩
+  have hilen : f.indexLen = kvs.length := by rw [hilen', hlen]
+  have hidx : ∀ k (hk : k < f.indexLen), keyBeforeIdx f key k = decide ((f.recs[k]'(by omega)).key < key) := by
     intro k hk
     have hk' : k < f.recs.length := by omega
-    have : f.index[k] = (f.recs[k]).pos := by simp [hb.index]
-    rw [this]
+    unfold keyBeforeIdx keyBefore
+    rw [hget k hk']
+    simp only
     unfold recAt
-    exact find_at_pos hsorted (List.getElem_mem hk')
+    rw [find_at_pos hsorted (List.getElem_mem hk')]
   have hkey : ∀ k (hk : k < f.recs.length), (f.recs[k]).key = (kvs[k]'(by omega)).1 := by
     intro k hk
     have := getElem_layout_key vlen kvs (so + headerSize) k (by rw [← hb.recs]; exact hk) (by omega)
@@ -64,39 +142,39 @@ theorem closest_pos_spec {α} (hash : Key → Nat) (vlen : α → Nat) (so : Nat
     have := (List.pairwise_iff_getElem.mp hord) i j (by simpa using (by omega : i < kvs.length)) (by simpa using hj) hij
     simpa using this
   unfold closestKeyPos
-  rcases WM.IdSets.bisectBy_spec
-      (keyBefore f key) f.index
+  rcases WM.IdSets.bisectBy_spec (keyBeforeIdx f key) (List.range f.indexLen)
       (by
         intro i j hij hj hp
-        have hi : i < f.index.length := by omega
-        unfold keyBefore at hp ⊢
+        simp only [List.length_range] at hj
+        have hi : i < f.indexLen := by omega
+        simp only [List.getElem_range] at hp ⊢
         rw [hidx j hj] at hp
         rw [hidx i hi]
         simp only [decide_eq_true_eq] at hp ⊢
         rw [hkey j (by omega)] at hp
         rw [hkey i (by omega)]
         exact List.lt_trans (hkeys i j hij (by omega)) hp)
-      f.index.length 0 f.index.length rfl (Nat.zero_le _) (Nat.le_refl _)
+      f.indexLen 0 f.indexLen rfl (Nat.zero_le _) (by simp)
     with ⟨lo, hr, _, hlo, h3, h4⟩
   rw [hr]
   refine ⟨lo, by omega, ?_, hlen, ?_, ?_⟩
   · simp only [bind, Except.bind]
-    by_cases hend : lo = f.index.length
+    by_cases hend : lo = f.indexLen
     · rw [if_pos hend, List.getElem?_eq_none (by omega)]; rfl
     · rw [if_neg hend]
-      have hlo' : lo < f.index.length := by omega
-      rw [List.getElem?_eq_getElem hlo', List.getElem?_eq_getElem (by omega)]
-      simp [hb.index]
+      have hlo' : lo < f.recs.length := by omega
+      rw [hget lo hlo', List.getElem?_eq_getElem hlo']
+      rfl
   · intro k hk hklo
-    have := h3 k (by omega) (Nat.zero_le _) hklo
-    unfold keyBefore at this
+    have := h3 k (by simp; omega) (Nat.zero_le _) hklo
+    simp only [List.getElem_range] at this
     rw [hidx k (by omega)] at this
     simp only [decide_eq_true_eq] at this
     rw [hkey k (by omega)] at this
     exact this
   · intro k hk hlok
-    have := h4 k (by omega) hlok (by omega)
-    unfold keyBefore at this
+    have := h4 k (by simp; omega) hlok (by omega)
+    simp only [List.getElem_range] at this
     rw [hidx k (by omega)] at this
     simp only [decide_eq_false_iff_not] at this
     rw [hkey k (by omega)] at this
